@@ -223,7 +223,8 @@ func (p Parameters) GetOptimalScalingFactor(a, c rlwe.Scale, level int) (b rlwe.
 	for i := 0; i < p.LevelsConsumedPerRescaling(); i++ {
 		b = b.Mul(rlwe.NewScale(Q[level-i]))
 	}
-	return
+	// Rescale(a * b) = a * b / (moduli consumed by the rescaling) = c
+	return b.Mul(c).Div(a)
 }
 
 // MaxDepth returns the maximum depth enabled by the parameters,
